@@ -595,6 +595,7 @@ func (f *Frame) indexAddr(st *State, in ssa.Instruction, v *ssa.IndexAddr) *Val 
 	c := f.c
 	a := f.get(v.X)
 	idx := f.toIdx(f.get(v.Index), v.Index.Type())
+	c.addTrig(idx)
 	if a.K == KSlice {
 		f.panicSite(st, in, "index", Or(c.idxLt(idx, c.idxLit(0)), c.idxLe(a.Len, idx)), "index out of range")
 		return scalar(RefElem(a.Base, c.idxAdd(a.Off, idx)), v.Type())
